@@ -23,6 +23,8 @@ def build(lines, quick, rnd):
             items.append(('att', l['att'], l))
         if 'intel_split' in l and (not quick or rnd.random() < 0.5):
             items.append(('intel', l['intel_split'], l))        # the same request with the displacement as constant arithmetic
+        if 'intel_dec0' in l and (not quick or rnd.random() < 0.5):
+            items.append(('intel', l['intel_dec0'], l))         # the same request with its small numbers written 0N
     return items
 
 
